@@ -335,7 +335,14 @@ func rewriteSugarStmts(src string) (string, error) {
 		}
 	}
 	if bodyStart < 0 {
-		return "", fmt.Errorf("spec func without body")
+		// bodiless declaration: an uninterpreted spec function
+		var t2 []tok
+		for _, t := range ts {
+			if t.tok != token.SEMICOLON {
+				t2 = append(t2, t)
+			}
+		}
+		return joinToks(t2), nil
 	}
 	sb.WriteString(joinToks(ts[:bodyStart+1]))
 	sb.WriteString("\n")
